@@ -284,4 +284,126 @@ theorem queue_work_exec (L : Layout) (k : K) (P : List Val → Prop) {fuel : Nat
         rcases hcase with ⟨rfl, hb⟩ | ⟨rfl, rfl, hP⟩ <;>
           simp_all [QwPost, tlr_cons, absEvT, tstep]
 
+/-! ## loops -/
+
+/-- `iterate_inv` (`Src/StackExec.lean`) that also returns the invariant when the loop budget runs out -/
+theorem iterate_inv' {σ : Type} (lr : σ → List Event → Option σ)
+    (lr_nil : ∀ s, lr s [] = some s)
+    (lr_append : ∀ s a b, lr s (a ++ b) = (lr s a).bind (fun m => lr m b))
+    (body : Env → List Val → Except String Out)
+    (I : Env → List Val → σ → Prop) (R : Ctl → Env → List Val → σ → Prop)
+    (hbody : ∀ env inp ls, I env inp ls → ∃ o, body env inp = .ok o ∧ ∃ ls', lr ls o.events = some ls' ∧
+      (if o.ctl.goesOn then I o.env o.inp ls' else R o.ctl o.env o.inp ls')) :
+    ∀ n env inp ls acc, I env inp ls → ∃ out, iterate body n env inp acc = .ok out ∧
+      ∃ evs ls', out.events = acc ++ evs ∧ lr ls evs = some ls' ∧
+        ((out.ctl = .fuel ∧ I out.env out.inp ls') ∨
+          ∃ c, c.goesOn = false ∧ R c out.env out.inp ls' ∧ out.ctl = c.afterLoop) := by
+  intro n
+  induction n with
+  | zero =>
+    intro env inp ls acc hI
+    exact ⟨_, rfl, [], ls, by simp, lr_nil ls, .inl ⟨rfl, hI⟩⟩
+  | succ n ih =>
+    intro env inp ls acc hI
+    obtain ⟨o, ho, ls1, hl1, hpost⟩ := hbody env inp ls hI
+    rcases o with ⟨oev, oenv, oinp, octl⟩
+    simp only [iterate, ho, bind, Except.bind]
+    cases octl with
+    | normal =>
+      simp only [Ctl.goesOn, if_true] at hpost
+      obtain ⟨out, hout, evs, ls2, hev, hl2, hfin⟩ := ih oenv oinp ls1 (acc ++ oev) hpost
+      refine ⟨out, hout, oev ++ evs, ls2, by simp [hev], ?_, hfin⟩
+      simp [lr_append, hl1, hl2]
+    | cont =>
+      simp only [Ctl.goesOn, if_true] at hpost
+      obtain ⟨out, hout, evs, ls2, hev, hl2, hfin⟩ := ih oenv oinp ls1 (acc ++ oev) hpost
+      refine ⟨out, hout, oev ++ evs, ls2, by simp [hev], ?_, hfin⟩
+      simp [lr_append, hl1, hl2]
+    | brk =>
+      simp only [Ctl.goesOn] at hpost
+      exact ⟨_, rfl, oev, ls1, rfl, hl1, .inr ⟨.brk, rfl, by simpa using hpost, rfl⟩⟩
+    | ret v =>
+      simp only [Ctl.goesOn] at hpost
+      exact ⟨_, rfl, oev, ls1, rfl, hl1, .inr ⟨.ret v, rfl, by simpa using hpost, rfl⟩⟩
+    | blocked =>
+      simp only [Ctl.goesOn] at hpost
+      exact ⟨_, rfl, oev, ls1, rfl, hl1, .inr ⟨.blocked, rfl, by simpa using hpost, rfl⟩⟩
+    | fuel =>
+      simp only [Ctl.goesOn] at hpost
+      exact ⟨_, rfl, oev, ls1, rfl, hl1, .inr ⟨.fuel, rfl, by simpa using hpost, rfl⟩⟩
+
+/-- oracle of a poll loop on the flags: flags word (a non-negative integer), result of `poll` (ignored), … -/
+def FlagLoopInp : List Val → Prop
+  | [] => True
+  | [f] => IsNat f
+  | f :: _ :: rest => IsNat f ∧ FlagLoopInp rest
+
+/-! ## `urcu_workqueue_pause_worker(workqueue)` -/
+
+/-- body of the loop `while ((uatomic_read(&workqueue->flags) & URCU_WORKQUEUE_PAUSED) == 0) poll(NULL, 0, 1)` -/
+def pauseBody : Stmt := (firstLoop Gen.Src.«urcu_workqueue_pause_worker»).getD .skip
+
+theorem pause_body (L : Layout) (fuel : Nat) (env : Env) (inp : List Val) (pc : TPc)
+    (hI : env.vars "workqueue" = some (.ptr L.W) ∧ FlagLoopInp inp ∧ pc = .pWait) :
+    ∃ o, exec fuel pauseBody env inp = .ok o ∧ ∃ pc', tlr L pc o.events = some pc' ∧
+      (if o.ctl.goesOn then o.env.vars "workqueue" = some (.ptr L.W) ∧ FlagLoopInp o.inp ∧ pc' = .pWait
+       else (o.ctl = .brk ∧ pc' = .holding) ∨ (o.ctl = .blocked ∧ pc' = .pWait)) := by
+  obtain ⟨hw, hi, rfl⟩ := hI
+  cases inp with
+  | nil =>
+    wexec [pauseBody, firstLoop, Gen.Src.«urcu_workqueue_pause_worker», tlr, trun, Ctl.goesOn]
+  | cons f rest =>
+    cases rest with
+    | nil =>
+      obtain ⟨n, rfl⟩ := hi
+      by_cases hb : bit n 8 = true <;>
+        wexec [pauseBody, firstLoop, Gen.Src.«urcu_workqueue_pause_worker», tlr, trun, Ctl.goesOn, absEvT, tstep, hb]
+    | cons p rest =>
+      obtain ⟨⟨n, rfl⟩, hi⟩ := hi
+      by_cases hb : bit n 8 = true <;>
+        wexec [pauseBody, firstLoop, Gen.Src.«urcu_workqueue_pause_worker», tlr, trun, Ctl.goesOn, absEvT, tstep, hb]
+
+/-- well-typed oracle: result of `uatomic_or` (ignored), the wake path, the poll loop -/
+def PauseInp : List Val → Prop
+  | [] => True
+  | _ :: rest => WakeInp FlagLoopInp rest
+
+/-- from L2's `idle` (the API contract of `pOr` is a global guard, `WqL.tGuard`): `pOr ; ldFlags ; [ldFutex ; [stFutex ;
+wake]] ;` stutter loads `; pSee`.  A completed call is at `holding`: the worker's PAUSED flag was seen. -/
+def PausePost (L : Layout) (out : Out) : Prop :=
+  ∃ pc', tlr L .idle out.events = some pc' ∧
+    ((out.ctl = .blocked ∧ (pc' = .idle ∨ pc' = .ldFlags .pause ∨ pc' = .ldFutex .pause ∨ pc' = .wake .pause ∨ pc' = .pWait)) ∨
+     (out.ctl = .fuel ∧ pc' = .pWait) ∨
+     (out.ctl = .normal ∧ pc' = .holding))
+
+theorem pause_worker_exec (L : Layout) (fuel : Nat) (env : Env) (inp : List Val)
+    (hw : env.vars "workqueue" = some (.ptr L.W)) (hi : PauseInp inp) :
+    ∃ out, exec fuel Gen.Src.«urcu_workqueue_pause_worker» env inp = .ok out ∧ PausePost L out := by
+  rw [show Gen.Src.«urcu_workqueue_pause_worker» = Stmt.seq _ (.seq _ (.seq _ (.loop pauseBody))) from rfl]
+  cases inp with
+  | nil => wexec [PausePost, tlr, trun]
+  | cons u rest =>
+    simp only [PauseInp] at hi
+    wexec []
+    generalize hE : exec fuel Gen.Src.«wake_worker_thread» _ _ = r
+    obtain ⟨out, rfl, hp1, pc', hpc', hcase⟩ := wake_worker_exec L .pause FlagLoopInp hE (by simp) hi
+    rcases out with ⟨ev, en, ip, ctl⟩
+    rcases hcase with ⟨rfl, hb⟩ | ⟨rfl, rfl, hP⟩
+    · simp_all [PausePost, tlr_cons, absEvT, tstep]
+      rcases hb with rfl | rfl | rfl <;> simp
+    · simp only at hP hpc' ⊢
+      obtain ⟨out, ho, evs, pc2, hev, hl, hfin⟩ :=
+        iterate_inv' (tlr L) (tlr_nil L) (tlr_append L) (exec fuel pauseBody)
+          (fun env inp pc => env.vars "workqueue" = some (.ptr L.W) ∧ FlagLoopInp inp ∧ pc = .pWait)
+          (fun c _ _ pc => (c = .brk ∧ pc = .holding) ∨ (c = .blocked ∧ pc = .pWait))
+          (pause_body L fuel) fuel ⟨env.vars, en.priv⟩ ip .pWait [] ⟨hw, hP, rfl⟩
+      rcases out with ⟨oev, oen, oip, octl⟩
+      simp only [List.nil_append] at hev
+      subst hev
+      simp only [ho]
+      rcases hfin with ⟨rfl, -, -, rfl⟩ | ⟨c, -, hR, rfl⟩
+      · simp_all [PausePost, tlr_cons, tlr_append, absEvT, tstep, K.cont]
+      · rcases hR with ⟨rfl, rfl⟩ | ⟨rfl, rfl⟩ <;>
+          simp_all [PausePost, tlr_cons, tlr_append, absEvT, tstep, K.cont, Ctl.afterLoop]
+
 end UrcuVerif.Src.WqR
